@@ -622,9 +622,789 @@ def unit1(ctx, g, seen_cls, fail_cls):
 
 
 # ---------------------------------------------------------------------------------------------
+# generic engine for the `PCodec` classes (units 2-5)
+# ---------------------------------------------------------------------------------------------
+class NotRep(Exception):
+    """the Python object has no counterpart in the model's value type"""
+
+
+def bits_of(x) -> int:
+    import struct
+    if isinstance(x, bool) or not isinstance(x, (int, float)):
+        raise NotRep("not a number: %r" % type(x).__name__)
+    try:
+        return struct.unpack(">Q", struct.pack(">d", x))[0]
+    except (OverflowError, struct.error):
+        raise NotRep("int too large for a double")
+
+
+def float_of(bits: int) -> float:
+    import struct
+    return struct.unpack(">d", struct.pack(">Q", bits))[0]
+
+
+def t_nat(x):
+    if isinstance(x, bool) or not isinstance(x, int):
+        if hasattr(x, "value") and isinstance(x.value, int) and not isinstance(x.value, bool):
+            x = int(x.value)
+        else:
+            raise NotRep("not an int: %r" % type(x).__name__)
+    if x < 0:
+        raise NotRep("negative value in an unsigned field")
+    return str(int(x))
+
+
+def t_int(x):
+    if isinstance(x, bool) or not isinstance(x, int):
+        raise NotRep("not an int: %r" % type(x).__name__)
+    return str(int(x))
+
+
+def t_bytes(x):
+    if not isinstance(x, (bytes, bytearray)):
+        raise NotRep("not bytes: %r" % type(x).__name__)
+    return hx(bytes(getattr(x, "value", x)))
+
+
+def t_str(s):
+    if not isinstance(s, str):
+        raise NotRep("not a str: %r" % type(s).__name__)
+    return [str(len(s)), *[str(ord(c)) for c in s]]
+
+
+def t_opt(x, f):
+    return ["0"] if x is None else ["1", *f(x)]
+
+
+def t_list(xs, f):
+    out = [str(len(xs))]
+    for x in xs:
+        out += f(x)
+    return out
+
+
+def has_pair(s):
+    return any(0xD800 <= ord(a) < 0xDC00 and 0xDC00 <= ord(b) < 0xE000 for a, b in zip(s, s[1:]))
+
+
+class Spec:
+    """one modelled class: how to drive the real class and the model"""
+    name = None                 # model class name (pl.enc / pl.dec)
+    pyname = None               # real class name (default: name)
+    at_end = False              # the reader looks at what follows: no bytes are appended after the encoding
+    offsets = ()                # structural offsets for truncations / overwrites
+
+    def K(self):
+        raise NotImplementedError
+
+    def tokens(self, x) -> str:
+        raise NotImplementedError
+
+    def contexts(self):
+        """[(version, write padding, read padding-or-None)]"""
+        return [(1, 4, None)]
+
+    def write_kw(self, v, pad):
+        return {"version": v, "padding": pad}
+
+    def read_kw(self, v, rpad):
+        return {"version": v}
+
+    def model_pads(self, pad, rpad):
+        """(pad argument of pl.enc, pad argument of pl.dec)"""
+        return pad, (pad if rpad is None else rpad)
+
+    def excluded(self, x, pad=None, rpad=None):
+        return None
+
+    def instances(self, rng, quick):
+        return []
+
+
+def run_spec(ctx, spec, harvested, seen_cls, fail_cls, excluded_log):
+    import codec_common as cc
+    rng, quick = ctx.rng, ctx.quick
+    K = spec.K()
+    nm = spec.name
+    cases = [("fixture", x) for x in harvested] + list(spec.instances(rng, quick))
+    live, reqs = [], []
+    for origin, x in cases:
+        for (v, pad, rpad) in spec.contexts():
+            try:
+                toks = spec.tokens(x)
+            except (NotRep, skel.NotSkeleton) as e:
+                ctx.hist("payload_not_representable", f"{nm}: {str(e)[:60]}")
+                break
+            w = py_write(x, **spec.write_kw(v, pad))
+            try:
+                after = spec.tokens(x) if w[0] == "ok" else None
+            except (NotRep, skel.NotSkeleton):
+                after = None
+            mpad, mrpad = spec.model_pads(pad, rpad)
+            live.append([origin, x, v, pad, rpad, toks, w, after, mpad, mrpad])
+            reqs.append(("pl.enc", nm, v, mpad, toks))
+    dec_reqs, dec_cases = [], []
+    for c, a in zip(live, cc.pbatch(reqs)):
+        origin, x, v, pad, rpad, toks, w, after, mpad, mrpad = c
+        ctx.corr_cases += 1
+        ctx.count(("pl-enc", nm, v, pad, toks[:3000]), nontrivial=True)
+        ctx.hist("payload_class_x_origin", f"{nm}/{origin}")
+        seen_cls[spec.pyname or nm] += 1
+        if a and a[0] in ("bad-request", "unknown-class"):
+            ctx.disagree(f"{nm}: the model driver rejects the request", {"value": _short(toks), "answer": a[:1]})
+            continue
+        if w[0] == "ok":
+            if a[0] != "ok" or a[1] != hx(w[1]):
+                ctx.disagree(f"{nm}: write() bytes != model enc", {"value": _short(toks), "version": v, "padding": pad,
+                                                                  "model": a[:2] if a[0] != "ok" else _short(a[1], 200), "py": hx(w[1])[:200]})
+                continue
+            if int(a[2]) != w[2]:
+                ctx.disagree(f"{nm}: count returned by write != model count", {"value": _short(toks), "py": w[2], "model": a[2]})
+            if after != toks:
+                ctx.disagree(f"{nm}: write() changed the object (the model says it does not)", {"value": _short(toks), "after": _short(after)})
+            iswf = a[3] == "1"
+            why = spec.excluded(x, pad, rpad)
+            if iswf != (why is None):
+                ctx.disagree(f"{nm}: model WF disagrees with the harness's reading of the clauses",
+                             {"value": _short(toks), "model_wf": iswf, "harness": why})
+            pre = bytes(rng.randrange(256) for _ in range(rng.choice([0, 0, 1, 3])))
+            post = b"" if spec.at_end else bytes(rng.randrange(256) for _ in range(rng.choice([0, 0, 2, 9])))
+            dec_cases.append(c + [iswf, why, pre, post])
+            dec_reqs.append(("pl.dec", nm, v, mrpad, hx(pre + w[1] + post), len(pre)))
+        else:
+            ctx.hist("payload_writer_rejects", f"{nm}:{w[1]}")
+            if a[0] != "err" or a[1] != w[1]:
+                ctx.disagree(f"{nm}: exception class of write != model enc", {"value": _short(toks), "py": w[1], "model": a[:2]})
+    for c, a in zip(dec_cases, cc.pbatch(dec_reqs)):
+        origin, x, v, pad, rpad, toks, w, after, mpad, mrpad, iswf, why, pre, post = c
+        ctx.corr_cases += 1
+        rkw = spec.read_kw(v, rpad)
+        r = py_read(K, pre + w[1] + post, len(pre), **rkw)
+        if r[0] == "ok":
+            try:
+                rt = spec.tokens(r[1])
+            except (NotRep, skel.NotSkeleton) as e:
+                ctx.disagree(f"{nm}: re-read value is not representable in the model", {"value": _short(toks), "why": str(e)})
+                continue
+            if a[0] != "ok" or a[1] != rt or int(a[2]) != r[2]:
+                ctx.disagree(f"{nm}: read() structure / cursor != model dec",
+                             {"value": _short(toks), "py": _short(rt), "model": _short(a[1]) if len(a) > 1 else a,
+                              "py_pos": r[2], "model_pos": a[2] if len(a) > 2 else None, "version": v, "padding": pad})
+        else:
+            ctx.hist("payload_reader_rejects_own_output", f"{nm}:{r[1]}")
+            if a[0] != "err" or a[1] != r[1]:
+                ctx.disagree(f"{nm}: exception class of read != model dec", {"value": _short(toks), "py": r[1], "model": a[:2]})
+        # ---- the property itself on the real code (Python only)
+        ctx.count(("pl-oracle", nm, v, pad, toks[:3000]), nontrivial=True)
+        r0 = py_read(K, w[1], 0, **rkw) if (pre or post) else r
+        ok, obs = False, None
+        if r0[0] == "ok":
+            try:
+                rt0 = spec.tokens(r0[1])
+            except (NotRep, skel.NotSkeleton):
+                rt0 = None
+            w2 = py_write(r0[1], **spec.write_kw(v, pad))
+            same = rt0 == toks
+            ok = same and w2[0] == "ok" and w2[1] == w[1]
+            obs = {"reread_equal": same, "rewrite_identical": w2[0] == "ok" and w2[1] == w[1], "reread": _short(rt0 or "?")}
+        else:
+            obs = {"read": r0[1]}
+        if ok:
+            ctx.hist("payload_oracle", f"{nm}: round-trips" if why is None else f"{nm}: excluded-by-WF-but-round-trips")
+        elif why is not None:
+            excluded_log[f"{nm}: {why}"] += 1
+            ctx.hist("payload_oracle", f"{nm}: excluded-by-WF:{why}")
+        else:
+            fail_cls[spec.pyname or nm] += 1
+            kind = "read-raises" if r0[0] != "ok" else ("reread-differs" if not obs["reread_equal"] else "rewrite-differs")
+            ctx.fail(f"C01/payload/{spec.pyname or nm}/{kind}",
+                     f"{spec.pyname or nm}.frombytes(x.tobytes()) is not x / does not re-write identically ({origin} instance)",
+                     {"class": f"{K.__module__}.{K.__name__}", "kwargs": spec.write_kw(v, pad), "bytes": hx(w[1]), "repr": _short(toks, 1500)},
+                     obs, "equal structure (token form) and identical second tobytes()")
+    # ---- error paths: truncated / mutated encodings (outcome class; structure and cursor when accepted)
+    pool = [c for c in dec_cases if len(c[6][1]) <= 3000]
+    rng.shuffle(pool)
+    pool = pool[: (12 if quick else 300)]
+    mreqs, mexp = [], []
+    for c in pool:
+        origin, x, v, pad, rpad, toks, w, after, mpad, mrpad = c[:10]
+        for how, bb in mutations(rng, w[1], 5 if quick else 10, offsets=spec.offsets):
+            r = py_read(K, bb, 0, **spec.read_kw(v, rpad))
+            mreqs.append(("pl.dec", nm, v, mrpad, hx(bb), 0))
+            mexp.append((how, bb, r))
+    for (how, bb, r), a in zip(mexp, cc.pbatch(mreqs)):
+        ctx.corr_cases += 1
+        ctx.count(("pl-mut", nm, bb), nontrivial=True)
+        ctx.hist("payload_mutation_outcome", f"{nm}/{how}:{r[1] if r[0] == 'err' else 'accepted'}")
+        if r[0] == "ok":
+            try:
+                rt = spec.tokens(r[1])
+            except (NotRep, skel.NotSkeleton) as e:
+                ctx.hist("payload_not_representable", f"{nm} (mutated): {str(e)[:60]}")
+                continue
+            if a[0] != "ok" or a[1] != rt or int(a[2]) != r[2]:
+                ctx.disagree(f"{nm} (mutated bytes): read() structure / cursor != model dec",
+                             {"bytes": hx(bb)[:400], "py": _short(rt), "model": _short(a[1]) if len(a) > 1 else a,
+                              "py_pos": r[2], "model_pos": a[2] if len(a) > 2 else None})
+        elif r[1] == "OverflowError":
+            ctx.hist("payload_outside_model", "fp.read(n) with n >= 2**63 (CPython: OverflowError; the skeleton's lenient read takes any n)")
+        elif a[0] != "err" or a[1] != r[1]:
+            ctx.disagree(f"{nm} (mutated bytes): exception class of read != model dec",
+                         {"bytes": hx(bb)[:400], "py": r[1], "model": a[:2], "mutation": how})
+    return len(live), len(mexp)
+
+
+# ---------------------------------------------------------------------------------------------
+# unit 2: fixed-layout payloads
+# ---------------------------------------------------------------------------------------------
+def _BASE():
+    import importlib
+    return importlib.import_module("psd_tools.psd.base")
+
+
+def _C():
+    import importlib
+    return importlib.import_module("psd_tools.constants")
+
+
+def _COLOR():
+    import importlib
+    return importlib.import_module("psd_tools.psd.color")
+
+
+def color_tokens(c):
+    if type(c).__name__ != "Color":
+        raise NotRep("not a Color: %r" % type(c).__name__)
+    vals = list(c.values)
+    return [t_nat(c.id), *t_list(vals, lambda z: [t_int(z)])]
+
+
+def gen_colors(rng):
+    C, Color = _C(), _COLOR().Color
+    out = []
+    for cid in list(C.ColorSpaceID) + [3, 12345, 65535]:
+        lab = int(cid) == int(C.ColorSpaceID.LAB)
+        lo, hi = (-32768, 32767) if lab else (0, 65535)
+        out.append(Color(cid, [lo, hi, 0, 1]))
+        out.append(Color(cid, [rng.randint(lo, hi) for _ in range(4)]))
+    return out
+
+
+class IntLike(Spec):
+    def __init__(self, name, getK, width, pyname=None):
+        self.name, self._getK, self.width, self.pyname = name, getK, width, pyname
+        self.offsets = (0, 1, 2, 3)
+
+    def K(self):
+        return self._getK()
+
+    def tokens(self, x):
+        return t_nat(x.value)
+
+    def instances(self, rng, quick):
+        K, m = self.K(), 256 ** self.width
+        vals = [0, 1, m - 2, m - 1, m, m + 5] + [rng.randrange(m) for _ in range(4 if quick else 60)]
+        return [("boundary", K(v)) for v in vals]
+
+
+class BoolSpec(Spec):
+    name = "BooleanElement"
+    offsets = (0, 1, 3)
+
+    def K(self):
+        return _BASE().BooleanElement
+
+    def tokens(self, x):
+        if not isinstance(x.value, bool):
+            raise NotRep("not a bool")
+        return "1" if x.value else "0"
+
+    def instances(self, rng, quick):
+        K = self.K()
+        return [("boundary", K(True)), ("boundary", K(False)), ("boundary", K(2))]
+
+
+class NumericSpec(Spec):
+    name = "NumericElement"
+    offsets = (0, 4, 7)
+
+    def K(self):
+        return _BASE().NumericElement
+
+    def tokens(self, x):
+        return str(bits_of(x.value))
+
+    def instances(self, rng, quick):
+        K = self.K()
+        pats = [0, 0x8000000000000000, 0x3FF0000000000000, 0x7FEFFFFFFFFFFFFF, 1, 0x7FF0000000000000, 0xFFF0000000000000,
+                0x7FF8000000000000, 0x7FF0000000000001, 0xFFFFFFFFFFFFFFFF] + [rng.randrange(2 ** 64) for _ in range(4 if quick else 80)]
+        out = []
+        for b in pats:
+            x = K(0.0)
+            x.value = float_of(b)          # the converter `float` would not keep a signalling NaN pattern apart
+            out.append(("boundary", x))
+        out.append(("boundary", K(3)))
+        return out
+
+
+class EmptySpec(Spec):
+    name = "EmptyElement"
+
+    def K(self):
+        return _BASE().EmptyElement
+
+    def tokens(self, x):
+        return "0"
+
+    def instances(self, rng, quick):
+        return [("boundary", self.K()())]
+
+
+STRINGS = ["", "a", "ab", "Layer 1", "\u00e9\u3042", "\U0001F600x", "x\U0010FFFF", "\ud800", "\udc00\ud800", "\udbff", "a\x00", "\x00",
+           "\uffff\ufffe", "z" * 300]
+PAIR_STRINGS = [chr(0xD800) + chr(0xDC00), "a" + chr(0xDBFF) + chr(0xDFFF) + "b"]
+
+
+class StringSpec(Spec):
+    name = "StringElement"
+    offsets = (0, 2, 3, 4, 5, 6)
+
+    def K(self):
+        return _BASE().StringElement
+
+    def tokens(self, x):
+        return " ".join(t_str(x.value))
+
+    def contexts(self):
+        # (version, write padding, read padding): as a tagged-block payload (inner padding 1 / 4, read with the default 1)
+        # and with the same padding on both sides (image resources)
+        return [(1, 1, None), (1, 4, None), (2, 2, 2), (1, 4, 4)]
+
+    def read_kw(self, v, rpad):
+        return {"version": v} if rpad is None else {"version": v, "padding": rpad}
+
+    def model_pads(self, pad, rpad):
+        return pad, (1 if rpad is None else rpad)
+
+    def excluded(self, x, pad=None, rpad=None):
+        return "adjacent-surrogate-pair (C19)" if has_pair(x.value) else None
+
+    def instances(self, rng, quick):
+        K = self.K()
+        return [("boundary", K(s)) for s in STRINGS + PAIR_STRINGS]
+
+
+class ColorSpec(Spec):
+    name = "Color"
+    offsets = (0, 1, 2, 4, 9)
+
+    def K(self):
+        return _COLOR().Color
+
+    def tokens(self, x):
+        return " ".join(color_tokens(x))
+
+    def instances(self, rng, quick):
+        Color, C = self.K(), _C()
+        out = [("boundary", c) for c in gen_colors(rng)]
+        out += [("breaking", Color(C.ColorSpaceID.RGB, [0, 0, 0])), ("breaking", Color(C.ColorSpaceID.RGB, [0, 0, 0, 0, 0])),
+                ("breaking", Color(C.ColorSpaceID.RGB, [-1, 0, 0, 0])), ("breaking", Color(C.ColorSpaceID.LAB, [32768, 0, 0, 0])),
+                ("breaking", Color(65536, [0, 0, 0, 0])), ("breaking", Color(C.ColorSpaceID.CMYK, [65536, 0, 0, 0]))]
+        return out
+
+
+class BytesSpec(Spec):
+    name = "Bytes"
+    at_end = True
+
+    def K(self):
+        return _TB().Bytes
+
+    def tokens(self, x):
+        return t_bytes(x.value)
+
+    def excluded(self, x, pad=None, rpad=None):
+        return "longer-than-four-bytes" if len(x.value) > 4 else None
+
+    def instances(self, rng, quick):
+        K = self.K()
+        return [("boundary", K(bytes(range(1, n + 1)))) for n in range(0, 7)] + [("boundary", K())]
+
+
+class SheetColorSpec(Spec):
+    name = "SheetColorSetting"
+    offsets = (0, 1, 2, 7)
+
+    def K(self):
+        return _TB().SheetColorSetting
+
+    def tokens(self, x):
+        return t_nat(x.value)
+
+    def instances(self, rng, quick):
+        K, C = self.K(), _C()
+        return [("boundary", K(m)) for m in C.SheetColorType]
+
+
+class ReferencePointSpec(Spec):
+    name = "ReferencePoint"
+    offsets = (0, 7, 8, 15)
+
+    def K(self):
+        return _TB().ReferencePoint
+
+    def tokens(self, x):
+        return " ".join(t_list(list(x), lambda v: [str(bits_of(v))]))
+
+    def instances(self, rng, quick):
+        K = self.K()
+        out = [("boundary", K([0.0, -0.0])), ("boundary", K([1.5, float("inf")])), ("boundary", K([float_of(0x7FF8000000000001), 5e-324])),
+               ("boundary", K([3, -7])), ("breaking", K([1.0])), ("breaking", K([1.0, 2.0, 3.0])), ("breaking", K([]))]
+        for _ in range(3 if quick else 60):
+            out.append(("generated", K([float_of(rng.randrange(2 ** 64)), float_of(rng.randrange(2 ** 64))])))
+        return out
+
+
+class DividerSpec(Spec):
+    name = "SectionDividerSetting"
+    at_end = True
+    offsets = (0, 3, 4, 8, 11, 12, 15)
+
+    def K(self):
+        return _TB().SectionDividerSetting
+
+    def tokens(self, x):
+        bm = x.blend_mode
+        if bm is not None and not hasattr(bm, "value"):
+            raise NotRep("blend_mode is not a BlendMode member")
+        return " ".join([t_nat(x.kind), *t_opt(x.signature, lambda s: [t_bytes(s)]), *t_opt(bm, lambda b: [hx(bytes(b.value))]),
+                         *t_opt(x.sub_type, lambda n: [t_nat(n)])])
+
+    def excluded(self, x, pad=None, rpad=None):
+        if (x.signature is None) != (x.blend_mode is None):
+            return "signature-without-blend-mode-or-reverse"
+        if x.signature is None and x.sub_type is not None:
+            return "sub-type-without-signature"
+        if x.signature is not None and x.signature != b"8BIM":
+            return "signature-not-8BIM"
+        return None
+
+    def instances(self, rng, quick):
+        K, C = self.K(), _C()
+        out = []
+        for kind in C.SectionDivider:
+            out.append(("boundary", K(kind)))
+            for bm in (list(C.BlendMode) if (not quick or kind == C.SectionDivider.OPEN_FOLDER) else [C.BlendMode.PASS_THROUGH, C.BlendMode.NORMAL]):
+                out.append(("boundary", K(kind, signature=b"8BIM", blend_mode=bm)))
+            for st in (0, 1, 2 ** 32 - 1):
+                out.append(("boundary", K(kind, signature=b"8BIM", blend_mode=C.BlendMode.NORMAL, sub_type=st)))
+        out += [("excluded", K(C.SectionDivider.OPEN_FOLDER, sub_type=5)),
+                ("excluded", K(C.SectionDivider.OPEN_FOLDER, signature=b"8BIM")),
+                ("excluded", K(C.SectionDivider.OPEN_FOLDER, blend_mode=C.BlendMode.MULTIPLY)),
+                ("excluded", K(C.SectionDivider.OPEN_FOLDER, signature=b"8B64", blend_mode=C.BlendMode.MULTIPLY)),
+                ("excluded", K(C.SectionDivider.OPEN_FOLDER, signature=b"", blend_mode=C.BlendMode.MULTIPLY, sub_type=1)),
+                ("breaking", K(C.SectionDivider.OPEN_FOLDER, signature=b"8BIM", blend_mode=C.BlendMode.NORMAL, sub_type=2 ** 32))]
+        return out
+
+
+class UserMaskSpec(Spec):
+    name = "UserMask"
+    offsets = (0, 2, 9, 10, 12, 13)
+
+    def K(self):
+        return _TB().UserMask
+
+    def tokens(self, x):
+        return " ".join([*color_tokens(x.color), t_nat(x.opacity), t_nat(x.flag)])
+
+    def instances(self, rng, quick):
+        K = self.K()
+        out = []
+        for c in gen_colors(rng):
+            out.append(("boundary", K(c, rng.choice([0, 1, 65535]), rng.choice([0, 128, 255]))))
+        out += [("breaking", K(gen_colors(rng)[0], 65536, 0)), ("breaking", K(gen_colors(rng)[0], 0, 256))]
+        return out
+
+
+class FilterMaskSpec(Spec):
+    name = "FilterMask"
+    offsets = (0, 2, 9, 10, 11)
+
+    def K(self):
+        return _TB().FilterMask
+
+    def tokens(self, x):
+        return " ".join([*color_tokens(x.color), t_nat(x.opacity)])
+
+    def instances(self, rng, quick):
+        K = self.K()
+        out = [("boundary", K(c, rng.choice([0, 1, 65535]))) for c in gen_colors(rng)]
+        out.append(("breaking", K(gen_colors(rng)[0], 65536)))
+        return out
+
+
+class CBRSpec(Spec):
+    name = "ChannelBlendingRestrictionsSetting"
+    at_end = True
+    offsets = (0, 3, 4, 5, 7)
+
+    def K(self):
+        return _TB().ChannelBlendingRestrictionsSetting
+
+    def tokens(self, x):
+        return " ".join(t_list(list(x), lambda n: [t_nat(n)]))
+
+    def instances(self, rng, quick):
+        K = self.K()
+        return [("boundary", K([])), ("boundary", K([0])), ("boundary", K([2 ** 32 - 1, 0, 1])), ("boundary", K(list(range(56)))),
+                ("breaking", K([2 ** 32]))]
+
+
+class PixelSourceSpec(Spec):
+    name = "PixelSourceData2"
+    at_end = True
+    offsets = (0, 7, 8, 9, 16)
+
+    def K(self):
+        return _TB().PixelSourceData2
+
+    def tokens(self, x):
+        return " ".join(t_list(list(x), lambda b: [t_bytes(b)]))
+
+    def contexts(self):
+        return [(1, 4, None), (2, 1, None), (1, 2, None)]
+
+    def instances(self, rng, quick):
+        K = self.K()
+        out = [("boundary", K([])), ("boundary", K([b""])), ("boundary", K([b"\x01", b"", b"\x02\x03"]))]
+        for _ in range(4 if quick else 60):
+            out.append(("generated", K([bytes(rng.randrange(256) for _ in range(rng.choice([0, 1, 2, 3, 4, 5, 7, 8, 9, 30]))) for _ in
+                                        range(rng.choice([1, 2, 3, 6]))])))
+        return out
+
+
+def metadata_item_tokens(m):
+    import desc_common as dc
+    D = dc._D()
+    d = m.data
+    if isinstance(d, D.DescriptorBlock):
+        if dc.block_kind(d) != 1:
+            raise NotRep("metadata data is not a plain DescriptorBlock")
+        try:
+            data = ["2", dc.block_tokens(d, 1)]
+        except dc.NotRep as e:
+            raise NotRep(str(e))
+    elif isinstance(d, bool):
+        raise NotRep("metadata data is a bool")
+    elif isinstance(d, int):
+        data = ["1", t_nat(d)]
+    elif isinstance(d, (bytes, bytearray)):
+        data = ["0", t_bytes(d)]
+    else:
+        raise NotRep("metadata data of type %s" % type(d).__name__)
+    if not isinstance(m.copy_on_sheet, bool):
+        raise NotRep("copy_on_sheet is not a bool")
+    return [t_bytes(m.signature), t_bytes(m.key), "1" if m.copy_on_sheet else "0", *data]
+
+
+def metadata_excluded(m):
+    import desc_common as dc
+    D = dc._D()
+    ints = (b"mdyn", b"sgrp")
+    known = _TB().MetadataSetting._KNOWN_KEYS
+    d = m.data
+    if len(m.key) != 4:
+        return "key-not-4-bytes"
+    if isinstance(d, D.DescriptorBlock):
+        if m.key in ints or m.key not in known:
+            return "data-type-does-not-match-key"
+        return dc._excluded_reason(d)
+    if isinstance(d, int):
+        return None if m.key in ints else "data-type-does-not-match-key"
+    return "data-type-does-not-match-key" if (m.key in ints or m.key in known) else None
+
+
+class MetadataSpec(Spec):
+    name = "MetadataSettings"
+    offsets = (0, 3, 4, 8, 12, 15, 16, 20)
+
+    def K(self):
+        return _TB().MetadataSettings
+
+    def tokens(self, x):
+        return " ".join(t_list(list(x), metadata_item_tokens))
+
+    def excluded(self, x, pad=None, rpad=None):
+        for m in x:
+            why = metadata_excluded(m)
+            if why:
+                return why
+        return None
+
+    def instances(self, rng, quick):
+        import desc_common as dc
+        TB, D = _TB(), dc._D()
+        g = dc.Gen(rng)
+        K, MS = self.K(), TB.MetadataSetting
+
+        def blk(depth=2):
+            body = g.descriptor(depth)
+            return D.DescriptorBlock(body._items, name=body.name, classID=body.classID)
+        out = [("boundary", K([]))]
+        known = sorted(k for k in MS._KNOWN_KEYS if k != b"sgrp")
+        out.append(("boundary", K([MS(b"8BIM", k, bool(i % 2), blk()) for i, k in enumerate(known)])))
+        out.append(("boundary", K([MS(b"8ELE", b"mdyn", True, 0), MS(b"8BIM", b"sgrp", False, 2 ** 32 - 1), MS(b"8BIM", b"abcd", False, b""),
+                                   MS(b"8BIM", b"wxyz", True, b"\x01\x02\x03")])))
+        for _ in range(3 if quick else 80):
+            items = []
+            for _ in range(rng.choice([1, 2, 4])):
+                c = rng.random()
+                if c < 0.5:
+                    items.append(MS(rng.choice([b"8BIM", b"8ELE"]), rng.choice(known), rng.random() < 0.5, blk(1 + rng.randrange(3))))
+                elif c < 0.7:
+                    items.append(MS(b"8BIM", rng.choice([b"mdyn", b"sgrp"]), rng.random() < 0.5, rng.choice([0, 1, 2 ** 32 - 1, rng.randrange(2 ** 32)])))
+                else:
+                    items.append(MS(b"8BIM", bytes(rng.choice(b"pqrsQ012") for _ in range(4)), False, bytes(rng.randrange(256) for _ in range(rng.choice([0, 1, 5, 9])))))
+            out.append(("generated", K(items)))
+        out += [("excluded", K([MS(b"8BIM", b"cust", False, b"\x01\x02\x03")])),
+                ("excluded", K([MS(b"8BIM", b"mdyn", False, b"\x00\x00\x00\x07")])),
+                ("excluded", K([MS(b"8BIM", b"abcd", False, 7)])),
+                ("excluded", K([MS(b"8BIM", b"abcd", False, blk(1))])),
+                ("breaking", K([MS(b"8BIM", b"mdyn", False, 2 ** 32)]))]
+        return out
+
+
+def annotation_tokens(a):
+    def ps(s):
+        if not isinstance(s, str):
+            raise NotRep("pascal string is not a str")
+        try:
+            return hx(s.encode("macroman"))
+        except UnicodeError:
+            raise NotRep("pascal string not encodable (C19)")
+    return [t_bytes(a.kind), t_nat(a.is_open), t_nat(a.flags), t_nat(a.optional_blocks),
+            *t_list(list(a.icon_location), lambda z: [t_int(z)]), *t_list(list(a.popup_location), lambda z: [t_int(z)]),
+            *color_tokens(a.color), ps(a.author), ps(a.name), ps(a.mod_date), t_bytes(a.marker), t_bytes(a.data)]
+
+
+class AnnotationsSpec(Spec):
+    name = "Annotations"
+    offsets = (0, 2, 4, 7, 8, 11, 12, 16, 20, 52, 62)
+
+    def K(self):
+        return _TB().Annotations
+
+    def tokens(self, x):
+        return " ".join([t_nat(x.major_version), t_nat(x.minor_version), *t_list(list(x), annotation_tokens)])
+
+    def excluded(self, x, pad=None, rpad=None):
+        for a in x:
+            if a.kind not in (b"txtA", b"sndM") or a.marker not in (b"txtC", b"sndM"):
+                return "kind-or-marker-rejected-by-validator"
+        return None
+
+    def instances(self, rng, quick):
+        TB = _TB()
+        K, A = self.K(), TB.Annotation
+        cols = gen_colors(rng)
+
+        def ann(i):
+            loc = lambda: [rng.choice([0, -1, 2 ** 31 - 1, -2 ** 31, rng.randrange(-5000, 5000)]) for _ in range(4)]
+            return A(kind=[b"txtA", b"sndM"][i % 2], is_open=rng.choice([0, 1, 255]), flags=rng.choice([0, 255]),
+                     optional_blocks=rng.choice([0, 1, 65535]), icon_location=loc(), popup_location=loc(), color=rng.choice(cols),
+                     author=rng.choice(["", "Jo", "J\u00e9", "x" * 255]), name=rng.choice(["", "n", "abc"]), mod_date=rng.choice(["", "D:2024"]),
+                     marker=[b"txtC", b"sndM"][(i // 2) % 2], data=bytes(rng.randrange(256) for _ in range(rng.choice([0, 1, 2, 7, 40]))))
+        out = [("boundary", K([])), ("boundary", K([A()])), ("boundary", K([], major_version=65535, minor_version=0))]
+        for i in range(6 if quick else 120):
+            out.append(("generated", K([ann(i + j) for j in range(rng.choice([1, 2, 3]))], major_version=2, minor_version=1)))
+        bad = A()
+        bad.kind = b"abcd"
+        out += [("excluded", K([bad])), ("breaking", K([A(author="y" * 256)])), ("breaking", K([A(is_open=256)])),
+                ("breaking", K([A(icon_location=[0, 0, 0])]))]
+        return out
+
+
+def unit2_specs():
+    B = _BASE
+    return [
+        EmptySpec(), NumericSpec(), IntLike("IntegerElement", lambda: B().IntegerElement, 4),
+        IntLike("ProtectedSetting", lambda: _TB().ProtectedSetting, 4), IntLike("ShortIntegerElement", lambda: B().ShortIntegerElement, 2),
+        IntLike("ByteElement", lambda: B().ByteElement, 1), BoolSpec(), StringSpec(), ColorSpec(), BytesSpec(), SheetColorSpec(),
+        ReferencePointSpec(), DividerSpec(), UserMaskSpec(), FilterMaskSpec(), CBRSpec(), PixelSourceSpec(), MetadataSpec(),
+        AnnotationsSpec(),
+    ]
+
+
+UNIT2_CLASSES = ["EmptyElement", "NumericElement", "IntegerElement", "ProtectedSetting", "ShortIntegerElement", "ByteElement",
+                 "BooleanElement", "StringElement", "Color", "Bytes", "SheetColorSetting", "ReferencePoint", "SectionDividerSetting",
+                 "UserMask", "FilterMask", "ChannelBlendingRestrictionsSetting", "PixelSourceData2", "MetadataSettings",
+                 "MetadataSetting", "Annotations", "Annotation"]
+
+
+def harvest_by_class(files):
+    """every element instance of the parsed fixtures, by exact class: {class: [instances]}"""
+    import codec_common as cc
+    import payload_oracle as po
+    sink: dict = {}
+    for f in files:
+        r = cc.read_doc(f.read_bytes())
+        if r[0] == "ok":
+            po.walk(r[1], sink)
+    return sink
+
+
+def distinct_instances(xs, key, limit, rng):
+    seen, out = set(), []
+    for x in xs:
+        try:
+            k = key(x)
+        except Exception:  # noqa
+            continue
+        if k in seen:
+            continue
+        seen.add(k)
+        out.append(x)
+    if limit is not None and len(out) > limit:
+        out = rng.sample(out, limit)
+    return out
+
+
+def run_units(ctx, specs, sink, seen_cls, fail_cls, excluded_log, label):
+    ncases = nmut = 0
+    for spec in specs:
+        K = spec.K()
+        xs = [x for x in sink.get(K, []) if type(x) is K]
+        harvested = distinct_instances(xs, spec.tokens, 40 if ctx.quick else None, ctx.rng)
+        ctx.hist("payload_harvest_distinct", spec.name, len(harvested))
+        a, b = run_spec(ctx, spec, [copy.deepcopy(x) for x in harvested], seen_cls, fail_cls, excluded_log)
+        ncases += a
+        nmut += b
+    ctx.extra[f"payload_{label}_cases"] = {"writer/reader cases": ncases, "mutations": nmut}
+
+
+def unit2_witnesses(ctx):
+    """the excluded points of Props/C01Payload.lean replayed on the real code"""
+    TB, C = _TB(), _C()
+    K = TB.SectionDividerSetting
+    for x in (K(C.SectionDivider.OPEN_FOLDER, sub_type=5), K(C.SectionDivider.OPEN_FOLDER, signature=b"8BIM")):
+        w = py_write(x)
+        r = py_read(K, w[1]) if w[0] == "ok" else ("err", "write")
+        if not (w[0] == "ok" and w[1] == b"\x00\x00\x00\x01" and r[0] == "ok" and r[1].signature is None and r[1].sub_type is None):
+            ctx.disagree("witness section_divider_*_alone_not_roundtrip does not replay on the real code", {"write": w[:2], "read": r[:1]})
+    w = py_write(TB.Bytes(b"\x01\x02\x03\x04\x05"))
+    r = py_read(TB.Bytes, w[1]) if w[0] == "ok" else ("err", "write")
+    if not (w[0] == "ok" and w[1] == b"\x01\x02\x03\x04\x05" and r[0] == "ok" and r[1].value == b"\x01\x02\x03\x04"):
+        ctx.disagree("witness bytes_longer_than_four_not_roundtrip does not replay on the real code", {"write": w[:2], "read": r[:1]})
+    w = py_write(TB.MetadataSetting(b"8BIM", b"cust", False, b"\x01\x02\x03"))
+    r = py_read(TB.MetadataSetting, w[1]) if w[0] == "ok" else ("err", "write")
+    if not (w[0] == "ok" and r == ("err", "IOError")):
+        ctx.disagree("witness metadata_raw_under_descriptor_key_not_roundtrip does not replay on the real code", {"write": w[:1], "read": r[:2]})
+
+
+# ---------------------------------------------------------------------------------------------
 # the check
 # ---------------------------------------------------------------------------------------------
-MODEL_CLASSES = list(UNIT1_CLASSES)
+MODEL_CLASSES = list(UNIT1_CLASSES) + UNIT2_CLASSES
 
 
 def run(ctx):
@@ -650,6 +1430,13 @@ def _run(ctx):
     seen_cls, fail_cls = collections.Counter(), collections.Counter()
     g = gen_c01.Gen(ctx.rng, None)
     unit1(ctx, g, seen_cls, fail_cls)
+    excluded_log = collections.Counter()
+    sink = harvest_by_class(cc.fixtures())
+    run_units(ctx, unit2_specs(), sink, seen_cls, fail_cls, excluded_log, "unit2")
+    unit2_witnesses(ctx)
+    seen_cls["MetadataSetting"] += seen_cls.get("MetadataSettings", 0)
+    seen_cls["Annotation"] += seen_cls.get("Annotations", 0)
+    ctx.extra["payload_points_excluded_by_WF (information; format-excluded, see notes)"] = dict(excluded_log)
 
     # ------------------------------------------------------------------ bookkeeping
     cov = ctx.model_coverage if isinstance(ctx.model_coverage, dict) else {}
@@ -684,7 +1471,23 @@ def _run(ctx):
         "record-level block under the keys Lr16/Lr32 would be decoded by TaggedBlock.read as well; the format puts those keys at "
         "document level only (record-level occurrences in the fixtures: see histogram payload_unit1_harvest).",
     ]
+    ctx.notes += [
+        "Unit 2 (fixed-layout payloads of psd/base.py, psd/tagged_blocks.py, psd/color.py) is modelled and proved: EmptyElement, "
+        "NumericElement, IntegerElement (= ProtectedSetting), ShortIntegerElement, ByteElement, BooleanElement, StringElement, Color, "
+        "Bytes, SheetColorSetting, ReferencePoint, SectionDividerSetting, UserMask, FilterMask, ChannelBlendingRestrictionsSetting, "
+        "PixelSourceData2, MetadataSettings / MetadataSetting (data = descriptor block of Props/C01Descriptor.lean | integer | bytes), "
+        "Annotations / Annotation: for each <class>_roundtrip (anywhere in a stream) or <class>_roundtrip_at_end (readers that look "
+        "at what follows: Bytes, SectionDividerSetting, ChannelBlendingRestrictionsSetting, PixelSourceData2), "
+        "<class>_rewrite_identical, <class>_written_is_length, tagged_block_<class> (composition with the skeleton's tagged block), "
+        "unit2_consumes_all / unit2_filler (what the reader leaves unread is the writer's write_padding), ties unit2_enums_tied, "
+        "unit2_registry_tied, unit2_calls_tied (every utils call of read/write with its format and arguments, from the AST).",
+        "Unit 2 WF clauses beyond validators/widths, each with a Lean witness replayed on the real code by this run (format-excluded "
+        "points, not findings): SectionDividerSetting - signature and blend mode travel together and the sub type follows them "
+        "(the writer stores the kind only otherwise; the API setter was repaired for this in 8a503b5), Bytes - at most four bytes "
+        "(fp.read(4)), MetadataSetting - the key decides the type of data, StringElement - no adjacent surrogate pair (C19).",
+    ]
     ctx.assumptions += [
+        "payload classes: doubles are compared as 64-bit patterns; pascal strings (Annotation) are their MacRoman bytes (C19)",
         "payload classes: CPython's fp.read(n) raises OverflowError for n >= 2**63 (ssize_t); the cursor readers of Model/Codec.lean "
         "take any natural n. Mutated encodings on which the real reader raises OverflowError (an 8-byte length field overwritten "
         "with a value >= 2**63) are counted under payload_outside_model and not compared",
@@ -696,7 +1499,12 @@ def _run(ctx):
         "without channels, the None-vs-empty points, count/shape mismatches, widths exceeded) as block payload, as typed tagged "
         "block (Lr16/Lr32 x 8BIM/8B64 x padding 1/2/4 x version 1/2) and inside whole documents (fixtures with Lr16/Lr32 "
         "re-written with layer-info padding 1/2/4; generated documents with the nested block inserted at a random position); "
-        "truncations / 4-byte overwrites / byte flips / deletions of the encodings as reader cases.")
+        "truncations / 4-byte overwrites / byte flips / deletions of the encodings as reader cases. Units 2-5: for every modelled "
+        "class, every distinct instance of the parsed fixtures (quick: a seeded sample of 40 per class) and hand-listed boundary "
+        "instances (every optional branch, 0 / max of each width, every enum member, values that do not fit) x the keyword contexts "
+        "the containers pass (version 1/2, padding 1/2/4): one writer case (bytes, returned count, object unchanged, WF) and one "
+        "reader case (structure and cursor, random bytes before - and after, unless the reader looks at what follows) plus the "
+        "Python-only oracle; 5-10 truncations / overwrites / flips / deletions of up to 300 encodings per class as reader cases.")
     if ctx.tier == "thorough":
         prev = ctx.extra.get("leanchecker")
         ctx.recheck(["PsdVerif.Props.C01Payload"])
